@@ -506,12 +506,67 @@ def r13f(ctx):
                        "generated one there, so the returned name is not one under which get_style finds the inserted style")
 
 
+def r13g(ctx):
+    """The style is stored under the name its predecessor was looked up by.
+
+    insert_style looks for "the style of the same family and name" under `name` and deletes it before appending the new one.  Replacing
+    instead of duplicating — and returning a name that finds the inserted style — needs the appended style to carry that very name:
+    when the caller gave none, `name` is read from the style; when the caller gave one, it is written onto the style before the style
+    is placed, whatever name the style had (only the default-style flag and the absence of a name attribute may exempt it).
+    Rule: (a) insert_style has both arms on its test of `name`; (b) the store `<style>.name = name` of the "given" arm is not guarded by a
+    test that reads the style's own name.
+    """
+    from ..paths import if_arms, structural_guards
+    repo = ctx.repo
+    ctx.rule("R13g", "insert_style: a caller-given name is written onto the style before it is placed; a missing one is read from the style", floor=2)
+    f = repo.func("Document.insert_style")
+    params = [a.arg for a in f.all_params()]
+    if "name" not in params:
+        raise AnalysisError("R13g: insert_style has no `name` parameter")
+    found = None
+    for n in walk_no_nested(f.node):
+        if isinstance(n, ast.If):
+            core, when_t, when_f = if_arms(n)
+            if isinstance(core, ast.Name) and core.id == "name":
+                found = (n, when_t, when_f)
+                break
+    if found is None:
+        raise AnalysisError("R13g: insert_style no longer tests `name`")
+    n, given, missing = found
+    reads = any(isinstance(a, ast.Assign) and any(isinstance(t, ast.Name) and t.id == "name" for t in a.targets) for st in missing for a in ast.walk(st))
+
+    def name_stores(stmts):
+        return [a for st in stmts for a in ast.walk(st) if isinstance(a, ast.Assign) and isinstance(a.value, ast.Name) and a.value.id == "name"
+                and any(isinstance(t, ast.Attribute) and t.attr == "name" for t in a.targets)]
+
+    writes = name_stores(given)
+    ok = reads and bool(writes)
+    ctx.instance("R13g", f"{f.file}:{f.ident}", "name missing: read from the style; name given: written onto the style", ok=ok, nontrivial=True, line=n.lineno)
+    if not ok:
+        ctx.report("R13g", f, n, "insert_style: name given but not written onto the style" if reads else "insert_style: missing name not read from the style",
+                   "insert_style looks the style to replace up under `name` but appends the new style under whatever name it carries: with name= given, an unnamed style stays unnamed "
+                   "(the old style of that name is deleted, nothing is found under it, None is returned) and a style carrying another name is stored under that other name")
+    # (b) the write (a) relies on does not depend on the style's current name (stores repeated later in a helper are redundant and not looked at)
+    for a in writes:
+        tgt = next(t for t in a.targets if isinstance(t, ast.Attribute) and t.attr == "name")
+        holder = norm(tgt.value)
+        bad = [t for t, _pol in structural_guards(a, stop=f.node)
+               if any(isinstance(x, ast.Attribute) and x.attr == "name" and norm(x.value) == holder and not isinstance(getattr(x, "ctx", None), ast.Store) for x in ast.walk(t))
+               or any(isinstance(x, ast.Call) and call_name(x) in ("getattr", "_pseudo_style_attribute") and x.args and norm(x.args[0]) == holder for x in ast.walk(t))]
+        ctx.instance("R13g", f"{f.file}:{f.ident}", f"`{norm(a, 40)}` does not depend on the style's current name", ok=not bad, nontrivial=True, line=a.lineno)
+        if bad:
+            ctx.report("R13g", f, a, f"{norm(a, 40)} under `{norm(bad[0], 40)}`",
+                       f"{f.ident} writes the requested name only when `{norm(bad[0], 40)}`: a style that already carries another name keeps it, while the style of the requested "
+                       f"name has been looked up for deletion — the requested name is lost, the other name may now exist twice, and the returned name finds another style")
+
+
 def run(ctx):
     r13ab(ctx)
     r13c(ctx)
     r13d(ctx)
     r13e(ctx)
     r13f(ctx)
+    r13g(ctx)
 
 
 from ..selftest import Seed, unparse_seed  # noqa: E402
@@ -519,6 +574,13 @@ from ..selftest import Seed, unparse_seed  # noqa: E402
 _DOC = "src/odfdo/document.py"
 _ST = "src/odfdo/styles.py"
 SEEDS = [
+    Seed("automatic branch repeats the naming only when the style has no name (redundant after the central write)", "neutral", _DOC, '            if hasattr(style, "name"):\n                style.name = name', '            if hasattr(style, "name") and not style.name:\n                style.name = name'),
+    Seed("insert_style no longer writes a given name onto the style", "fault", _DOC,
+         '        elif not default and hasattr(style_element, "name"):\n            # the style is stored under the name it is looked up by\n            style_element.name = name\n', '', "R13g"),
+    Seed("insert_style writes a given name only on unnamed styles", "fault", _DOC,
+         '        elif not default and hasattr(style_element, "name"):', '        elif not default and hasattr(style_element, "name") and not style_element.name:', "R13g"),
+    Seed("insert_style tests the flags in the other order", "neutral", _DOC,
+         '        elif not default and hasattr(style_element, "name"):', '        elif hasattr(style_element, "name") and not default:'),
     Seed("insert_style returns the name computed on entry", "fault", _DOC,
          '        return self._pseudo_style_attribute(style_element, "name")\n\n    def get_styled_elements', '        return name or self._pseudo_style_attribute(style_element, "name")\n\n    def get_styled_elements', "R13f"),
     Seed("merge looks for the replaced style in the destination container only", "fault", _DOC, '            duplicate = part.get_style(family, stylename)\n            if duplicate is not None:\n                duplicate.delete()\n', '            duplicate = dest.get_style(family, stylename)\n            if duplicate is not None:\n                duplicate.delete()\n', "R13c"),
